@@ -80,6 +80,7 @@ class Explorer:
         self.vars = {}
         self.ops = 0
         self.hang_flag = False
+        self.hash_registry, self.hash_plain, self.hash_counter = [], {}, 0
 
     # ------------------------------------------------------------------ solver access
     def check(self, *extra):
@@ -160,6 +161,7 @@ class Explorer:
                 self.vars = {}
                 self.errors = []
                 self.ops = 0
+                self.hash_registry, self.hash_plain, self.hash_counter = [], {}, 0
                 self.hang_flag = False
                 _ALARMS[0] = 0
                 self.solver.push()
